@@ -17,10 +17,13 @@
 (*           n   non-grid kinds: the length;                               *)
 (*               grid kinds: the HANDLE of the grid whose element count    *)
 (*               of that kind the length equals (0 = no known grid)        *)
-(*           idx label bookkeeping of the dim's coordinate                 *)
-(*               ("uniq" | "dup" | "none"), descriptive, preconditions only*)
+(*           idx label bookkeeping of the dim's coordinate: "uniq" known   *)
+(*               unique, "dup" possibly repeated / NaN, "none" no          *)
+(*               coordinate; descriptive, used by preconditions only       *)
 (*   name  "v" | "w" | "none" | "free" (free = the property says nothing)  *)
 (*   dt    "float" | "other" (descriptive: numeric operators need numbers) *)
+(*   al    TRUE iff element i of the data along the grid dim belongs to    *)
+(*         element i of the attached grid (data order = grid order)        *)
 (* grid   = [kind, of, closed]  kind base|dest|subset|dual|copy,           *)
 (*          of = the handle it was derived from                            *)
 (***************************************************************************)
@@ -77,8 +80,10 @@ ToFloatOps == {"astype"}
 RenameOps == {"rename", "to_dataset_roundtrip"}
 ElemGridOps == {"cumsum_grid"}                                        \* along the grid dim, length kept
 \* elementwise, one non-grid dimension as argument
+\* (the *_rev_* forms index the dimension with slice(None, None, -1): same length, reversed)
 ElemDimOps == {"add_plain", "shift", "roll", "cumsum", "cumprod", "rolling_mean", "sortby",
-               "assign_coords", "drop_vars"}
+               "assign_coords", "drop_vars",
+               "isel_rev_kw", "isel_rev_dict", "isel_rev_indexers", "getitem_rev"}
 PermuteOps == {"T", "transpose_rev", "transpose_gridfirst", "transpose_rotate", "transpose_gridlast"}
 \* a non-grid dimension removed
 DropOps  == {"isel_kw", "isel_dict", "isel_indexers", "sel_kw", "sel_dict", "getitem_int",
@@ -86,8 +91,10 @@ DropOps  == {"isel_kw", "isel_dict", "isel_indexers", "sel_kw", "sel_dict", "get
              "count", "quantile", "reduce", "squeeze"}
 NeedsLabels == {"sel_kw", "sel_dict", "loc", "sortby", "reindex", "where_drop"}
 \* a non-grid dimension's length changed
+\* (the *_step_* forms index with the step-only slice(None, None, 2))
 ResizeOps == {"isel_slice_kw", "isel_slice_dict", "getitem_slice", "head", "thin", "diff", "pad",
-              "concat_self", "coarsen", "reindex", "isel_list_kw", "where_drop"}
+              "concat_self", "coarsen", "reindex", "isel_list_kw", "where_drop",
+              "isel_step_kw", "isel_step_dict", "isel_step_indexers", "getitem_step"}
 AddOps   == {"expand_dims_run", "concat_new_run", "broadcast_like_run"}
 \* the grid dimension removed
 DropGridOps == {"mean_grid", "sum_grid", "max_grid", "sum_all", "getitem_grid_scalar", "dot_self_grid",
@@ -97,12 +104,19 @@ TopoOps  == {"topo_mean_face", "topo_mean_edge", "topo_max_face", "topo_min_edge
 EdgeOps  == {"gradient", "difference"}
 RemapOps == {"remap_nn_face", "remap_nn_node", "remap_nn_edge", "remap_idw_face", "remap_idw_node"}
 DualOps  == {"get_dual"}
-SubsetOps == {"isel_grid_kw", "subset_nn"}
+\* uxarray's grid-aware selection (keyword isel with a list, a bounded slice, a step-only slice, a negative-step
+\* slice, an integer array, a boolean mask; subset.*): a NEW grid holding exactly the elements the data has
+SubsetOps == {"isel_grid_kw", "subset_nn", "isel_grid_slice_kw", "isel_grid_step_kw", "isel_grid_rev_kw",
+              "isel_grid_array_kw", "isel_grid_mask_kw"}
 \* xarray indexing / resizing ON the grid dimension: the property only says what must hold of a result
 FreeOps  == {"getitem_grid_slice", "isel_grid_dict", "isel_grid_indexers", "head_grid", "diff_grid",
-             "pad_grid", "concat_self_grid"}
+             "pad_grid", "concat_self_grid",
+             "isel_grid_step_dict", "isel_grid_step_indexers", "getitem_grid_step",
+             "isel_grid_rev_dict", "isel_grid_rev_indexers", "getitem_grid_rev", "getitem_grid_mask"}
+\* operations that SELECT elements of the grid dimension: element i of the data must belong to element i of the grid
+SelectOps == SubsetOps \cup (FreeOps \ {"diff_grid", "pad_grid", "concat_self_grid"})
 CopyOps  == {"copy_default", "copy_deep", "deepcopy"}
-BrokenOps == {"broken_shorten_grid"}
+BrokenOps == {"broken_shorten_grid", "broken_reverse_grid"}
 
 \* uxarray's own operators are documented on the last axis
 LastAxisOps == TopoOps \cup EdgeOps \cup RemapOps \cup {"integrate"}
@@ -187,7 +201,8 @@ Eff(o, a, G) ==
     [] n \in DropOps -> R(SetDims(a, RemoveAt(a.dims, i)), G)
     [] n \in {"isel_slice_kw", "isel_slice_dict", "getitem_slice", "head", "reindex"}
                       -> R(SetLen(a, i, Min(D.n, 2), D.idx), G)
-    [] n = "thin"     -> R(SetLen(a, i, (D.n + 1) \div 2, D.idx), G)
+    [] n \in {"thin", "isel_step_kw", "isel_step_dict", "isel_step_indexers", "getitem_step"}
+                      -> R(SetLen(a, i, (D.n + 1) \div 2, D.idx), G)
     [] n \in {"diff", "where_drop"} -> R(SetLen(a, i, D.n - 1, D.idx), G)
     [] n = "pad"      -> R(SetLen(a, i, D.n + 2, IF D.idx = "none" THEN "none" ELSE "dup"), G)
     [] n = "concat_self" -> R(SetLen(a, i, 2 * D.n, IF D.idx = "none" THEN "none" ELSE "dup"), G)
@@ -211,7 +226,9 @@ Eff(o, a, G) ==
     [] n \in CopyOps  -> R([a EXCEPT !.grid = h, !.dims = Rebind(a.dims, h)],
                            Derived(G, "copy", a.grid, G[a.grid].closed))
     \* the deliberately wrong operation: shortens the grid dimension, keeps the grid
-    [] n \in BrokenOps -> R([a EXCEPT !.dims[GP(a)].n = 0], G)
+    [] n = "broken_shorten_grid" -> R([a EXCEPT !.dims[GP(a)].n = 0], G)
+    \* a second one: reverses the data along the grid dimension, keeps the grid
+    [] n = "broken_reverse_grid" -> R([a EXCEPT !.al = FALSE], G)
 
 (* ---- which operations are tried in a state ------------------------------ *)
 Cands(a) ==
@@ -224,7 +241,7 @@ Enabled(a, G) == { o \in Cands(a) : Pre(o, a, G) }
 Grid0 == << [kind |-> "base", of |-> 0, closed |-> TRUE], [kind |-> "dest", of |-> 0, closed |-> TRUE] >>
 Leads == { <<>>, <<Dim("time", 3, "uniq")>>, <<Dim("time", 3, "uniq"), Dim("lev", 2, "uniq")>> }
 Start(lead, k) == [cls |-> "Ux", grid |-> BASE, dims |-> lead \o <<Dim(k, BASE, "none")>>,
-                   name |-> "v", dt |-> "float"]
+                   name |-> "v", dt |-> "float", al |-> TRUE]
 
 Init == /\ \E lead \in Leads, k \in GridKinds : arr = Start(lead, k)
         /\ grids = Grid0 /\ last = NoOp /\ depth = 0
@@ -258,7 +275,7 @@ Spec == Init /\ [][Next]_vars
 DimOK(d) == /\ d.k \in DimKinds /\ d.idx \in {"uniq", "dup", "none"}
             /\ d.n \in 0..(IF d.k \in GridKinds THEN MaxDepth + 3 ELSE 8 * MaxLen)
 ArrOK(a, G) == /\ a.cls \in {"Ux", "Plain", "Other"} /\ a.grid \in 0..Len(G)
-               /\ a.name \in Names /\ a.dt \in {"float", "other"}
+               /\ a.name \in Names /\ a.dt \in {"float", "other"} /\ a.al \in BOOLEAN
                /\ \A i \in Idx(a) : DimOK(a.dims[i])
                /\ DistinctKinds(a) /\ OneGridDim(a)
 GridOK(G) == \A h \in 1..Len(G) : /\ G[h].kind \in {"base", "dest", "subset", "dual", "copy"}
@@ -266,6 +283,8 @@ GridOK(G) == \A h \in 1..Len(G) : /\ G[h].kind \in {"base", "dest", "subset", "d
 TypeOK == ArrOK(arr, grids) /\ GridOK(grids) /\ last.op \in AllOps \cup {"start"} /\ depth \in 0..MaxDepth
 
 IsUx               == IsUxArr(arr)
+\* element i of the data along the grid dimension belongs to element i of the attached grid
+DataFollowsGrid    == arr.al
 GridDimsConsistent == ConsistentArr(arr)
 \* the attached grid is the source's unless the operation says otherwise
 SameGrid == [][ arr'.grid = arr.grid \/ last'.op \in GridChanging ]_vars
